@@ -154,6 +154,13 @@ def enrich(prog, rng, max_in=3, max_inputs=10, max_choices=4, dstcap=3):
                 cands.append(c)
             seen = set()
             tries = 0
+            # boundary coverage first: a combination of every argument's smallest and of every argument's largest candidate
+            # (a guard like `args.n < 8` must see both sides, also across a resumption with changed arguments)
+            for pickf in (min, max):
+                combo = tuple(pickf(c) for c in cands)
+                if combo not in seen:
+                    seen.add(combo)
+                    choices.append([{"n": p["n"], "v": x} for p, x in zip(params, combo)])
             # aliasing needs equal arguments: always offer one combination where every numeric argument has the same value
             nums = [c for p, c in zip(params, cands) if p["kind"] == "num"]
             if len(nums) >= 2:
@@ -163,9 +170,10 @@ def enrich(prog, rng, max_in=3, max_inputs=10, max_choices=4, dstcap=3):
                 if common:
                     v = rng.choice(sorted(common))
                     combo = tuple(v if p["kind"] == "num" else 0 for p in params)
-                    seen.add(combo)
-                    choices.append([{"n": p["n"], "v": x} for p, x in zip(params, combo)])
-            while len(choices) < max_choices + (1 if len(nums) >= 2 else 0) and tries < 50:
+                    if combo not in seen:
+                        seen.add(combo)
+                        choices.append([{"n": p["n"], "v": x} for p, x in zip(params, combo)])
+            while len(choices) < max_choices + 2 + (1 if len(nums) >= 2 else 0) and tries < 50 and params:
                 tries += 1
                 combo = tuple(rng.choice(c) for c in cands)
                 if combo in seen:
@@ -174,6 +182,8 @@ def enrich(prog, rng, max_in=3, max_inputs=10, max_choices=4, dstcap=3):
                 choices.append([{"n": p["n"], "v": v} for p, v in zip(params, combo)])
             if not params:
                 choices = [[]]
+            if not any(p["kind"] == "num" for p in params):
+                choices = choices[:1]
         funcs.append({"id": fi, "name": f["a"], "pub": pub, "eff": f["eff"], "rets": rk, "params": params, "locals": locs,
                       "resum": [], "choices": choices})
     # inputs over a small alphabet drawn from the program's literals
